@@ -48,6 +48,7 @@ class Pt {
   }
 }
 gp = Pt(4, "p")
+gop: Pt? = gp
 fi = fn(a: int) -> int {
   return a + 1
 }
@@ -88,15 +89,22 @@ NON_CALLABLE = ["gi", "gs", "gb", "gl", "gp.x", "gm"]
 
 
 class St:
-    """one statement template instance: base lines + mutants [(fault, lines, (lo, hi), note)]"""
+    """one statement template instance: base lines + mutants [(fault, lines, (lo, hi), note)].
+    `decl` holds the CLASS declarations the statement needs: they are rendered at module level (a class is declared
+    once per module), whatever context the statement itself sits in.  A mutant that changes a class carries two more
+    fields: (fault, lines, (lo, hi), note, decl lines, "decl") -- the span then counts lines of the declaration."""
 
-    def __init__(self, tag, lines, mutants):
+    def __init__(self, tag, lines, mutants, decl=None):
         self.tag, self.lines, self.mutants = tag, lines, mutants
+        self.decl = decl or []
 
 
 class Ctx:
-    def __init__(self, kind, head, children, tail):
-        self.kind, self.head, self.children, self.tail = kind, head, children, tail
+    """a syntactic context around statements.  `hoist` = (head, tail) lines of a class that holds the children (method /
+    constructor body): the class is rendered at module level, `tail` (creating the object, calling the method) in place"""
+
+    def __init__(self, kind, head, children, tail, hoist=None):
+        self.kind, self.head, self.children, self.tail, self.hoist = kind, head, children, tail, hoist
 
 
 class G:
@@ -138,9 +146,21 @@ class G:
     def t_decl_alias(self):
         n = self.uid()
         w, t2 = self.wrong("int")
-        return St("decl_alias", ["v%d: Miles = %s" % (n, self.e("int"))],
-                  [("wrong_init", ["v%d: Miles = %s" % (n, w)], (0, 0), "alias Miles=int <- %s" % t2),
-                   ("unknown_type", ["v%d: NoType%d = %s" % (n, n, self.e("int"))], (0, 0), "")])
+        # an alias is a TYPE name (also the alias of a class): it cannot be used as a value
+        base = ["v%d: Miles = %s" % (n, self.e("int")), "type PA%d Pt" % n, "va%d: PA%d = gp" % (n, n), "vb%d = va%d.x" % (n, n)]
+
+        def mut(i, line):
+            m = list(base)
+            m[i] = line
+            return m
+        return St("decl_alias", base,
+                  [("wrong_init", mut(0, "v%d: Miles = %s" % (n, w)), (0, 0), "alias Miles=int <- %s" % t2),
+                   ("unknown_type", mut(0, "v%d: NoType%d = %s" % (n, n, self.e("int"))), (0, 0), ""),
+                   ("unknown_name", mut(0, "v%d = Miles" % n), (0, 0), "alias of int used as a value"),
+                   ("unknown_name", mut(3, "vb%d = PA%d" % (n, n)), (3, 3), "alias of a class used as a value"),
+                   ("unknown_name", mut(3, "vb%d = PA%d.x" % (n, n)), (3, 3), "field read through the alias of a class used as a value"),
+                   ("wrong_init", mut(2, "va%d: PA%d = %s" % (n, n, self.e("int"))), (2, 2), "alias of class Pt <- int"),
+                   ("unknown_field", mut(3, "vb%d = va%d.nofield%d" % (n, n, n)), (3, 3), "through the alias of a class")])
 
     def t_decl_optional(self):
         n, ty = self.uid(), self.r.choice(TYPES)
@@ -233,9 +253,17 @@ class G:
     def t_fn_void(self):
         n = self.uid()
         head = "h%d = fn(a: int) {" % n
-        return St("fn_void", [head, "  w%d = a" % n, "}", "h%d(%s)" % (n, self.e("int"))],
-                  [("value_from_void_fn", [head, "  w%d = a" % n, "  return %s" % self.e("int"), "}", "h%d(%s)" % (n, self.e("int"))], (0, 3), ""),
-                   ("void_value_used", [head, "  w%d = a" % n, "}", "z%d = h%d(%s)" % (n, n, self.e("int"))], (3, 3), "cannot store void")])
+        call = "h%d(%s)" % (n, self.e("int"))
+        muts = [("value_from_void_fn", [head, "  w%d = a" % n, "  return %s" % self.e("int"), "}", call], (0, 3), ""),
+                ("void_value_used", [head, "  w%d = a" % n, "}", "z%d = %s" % (n, call)], (3, 3), "cannot store void")]
+        for use, why in (("z%d = [%s]", "list element"), ("const z%d = [1, %s]", "later list element"), ("z%d = %s == nil", "compared with nil"),
+                         ("z%d = nil != %s", "nil compared with it"), ("print get %s  # %d", "unwrapped with get"), ("z%d = %s is gi", "operand of is"),
+                         ("z%d = (%s).to_str()", "receiver of to_str"), ("z%d = fi(%s)", "argument"), ("z%d = gi + %s", "operand of +"),
+                         ("z%d = -%s", "operand of unary minus"), ("z%d = gl[%s]", "index"), ("z%d: int? = %s", "annotated initializer")):
+            line = use % ((call, n) if use.startswith("print") else (n, call))
+            muts.append(("void_value_used", [head, "  w%d = a" % n, "}", line], (3, 3), "void call as " + why))
+        muts.append(("void_value_used", [head, "  w%d = a" % n, "}", "if %s == nil {" % call, "}"], (3, 4), "void call compared with nil as a condition"))
+        return St("fn_void", [head, "  w%d = a" % n, "}", call], muts)
 
     def t_cond_if(self):
         n = self.uid()
@@ -295,7 +323,8 @@ class G:
                   [("unsupported_operator", ["o%d = %s %s %s" % (n, self.e(lt), op, self.e(rt))], (0, 0), "%s %s %s" % (lt, op, rt)),
                    ("unsupported_operator", ["o%d = %s %s %s" % (n, self.r.choice(["gl", "gp", "gm"]), self.r.choice(["+", "*", "<"]), self.e("int"))], (0, 0), "non-native operand"),
                    # equality exists for scalars, lists and optionals of them; not for maps, objects, functions
-                   ("unsupported_operator", ["o%d = %s %s %s" % ((n,) + self.r.choice([("gm", "==", "gm"), ("gm", "!=", "gm"), ("gp", "==", "gp"), ("fi", "==", "fi"), ("[gm]", "==", "[gm]")]))], (0, 0), "equality of values that cannot be compared")])
+                   ("unsupported_operator", ["o%d = %s %s %s" % ((n,) + self.r.choice([("gm", "==", "gm"), ("gm", "!=", "gm"), ("gp", "==", "gp"), ("fi", "==", "fi"), ("[gm]", "==", "[gm]")]))], (0, 0), "equality of values that cannot be compared"),
+                   ("unsupported_operator", ["o%d = gop %s %s" % (n, self.r.choice(["==", "!="]), self.r.choice(["gop", "gop", "gp"]))], (0, 0), "equality of an optional holding an object")])
 
     def t_unary(self):
         n = self.uid()
@@ -397,41 +426,140 @@ class G:
     def t_obj_field(self):
         """a field whose type is a class holds an INSTANCE: it has fields and methods but is not callable"""
         n = self.uid()
-        base = ["class W%d {" % n, "  p: Pt", "  constructor(self) {", "    self.p = gp", "  }", "}",
-                "ww%d = W%d()" % (n, n), "wq%d = ww%d.p.getx()" % (n, n), "wr%d: int = ww%d.p.x" % (n, n)]
+        decl = ["class W%d {" % n, "  p: Pt", "  constructor(self) {", "    self.p = gp", "  }", "}"]
+        base = ["ww%d = W%d()" % (n, n), "wq%d = ww%d.p.getx()" % (n, n), "wr%d: int = ww%d.p.x" % (n, n)]
 
         def mut(i, s):
             m = list(base)
             m[i] = s
             return m
         return St("object_field", base,
-                  [("call_non_callable", mut(7, "wq%d = ww%d.p()" % (n, n)), (7, 7), "instance-typed field called"),
-                   ("call_non_callable", mut(7, "wq%d = ww%d.p(1, \"a\")" % (n, n)), (7, 7), "instance-typed field called with constructor arguments"),
-                   ("unknown_method", mut(7, "wq%d = ww%d.p.nomethod%d()" % (n, n, n)), (7, 7), "method of the object in a field"),
-                   ("wrong_init", mut(8, "wr%d: str = ww%d.p.x" % (n, n)), (8, 8), "str <- int field of the object in a field")])
+                  [("call_non_callable", mut(1, "wq%d = ww%d.p()" % (n, n)), (1, 1), "instance-typed field called"),
+                   ("call_non_callable", mut(1, "wq%d = ww%d.p(1, \"a\")" % (n, n)), (1, 1), "instance-typed field called with constructor arguments"),
+                   ("unknown_method", mut(1, "wq%d = ww%d.p.nomethod%d()" % (n, n, n)), (1, 1), "method of the object in a field"),
+                   ("wrong_init", mut(2, "wr%d: str = ww%d.p.x" % (n, n)), (2, 2), "str <- int field of the object in a field")], decl=decl)
 
     def t_class_def(self):
         n = self.uid()
         w, t2 = self.wrong("int")
-        base = ["class K%d {" % n, "  x: int", "  constructor(self, x: int) {", "    self.x = x", "  }",
-                "  fn fetch(self) -> int {", "    return self.x", "  }", "  fn bump(self, d: int) {", "    self.x = self.x + d", "  }", "}",
-                "kk%d = K%d(%s)" % (n, n, self.e("int")), "kk%d.bump(%s)" % (n, self.r.choice(["7", "(2 * 3)"])), "kv%d: int = kk%d.fetch()" % (n, n)]
+        decl = ["class K%d {" % n, "  x: int", "  constructor(self, x: int) {", "    self.x = x", "  }",
+                "  fn fetch(self) -> int {", "    return self.x", "  }", "  fn bump(self, d: int) {", "    self.x = self.x + d", "  }", "}"]
+        base = ["kk%d = K%d(%s)" % (n, n, self.e("int")), "kk%d.bump(%s)" % (n, self.r.choice(["7", "(2 * 3)"])), "kv%d: int = kk%d.fetch()" % (n, n)]
 
         def mut(i, s):
             m = list(base)
             m[i] = s
             return m
+
+        def dmut(fault, i, s, note):
+            d = list(decl)
+            d[i] = s
+            return (fault, base, (0, 11), note, d, "decl")
         return St("class_def", base,
-                  [("wrong_reassign", mut(3, "    self.x = %s" % w), (0, 11), "field int <- %s in constructor" % t2),
-                   ("wrong_return", mut(6, "    return %s" % w), (0, 11), "method int <- %s" % t2),
-                   ("unknown_field", mut(6, "    return self.nofield%d" % n), (0, 11), "self.nofield"),
-                   ("missing_return", mut(6, "    self.x = self.x + 0"), (0, 11), "method declared -> int reaches its end without a return"),
-                   ("wrong_reassign", mut(9, "    self.x = %s" % w), (0, 11), "field int <- %s in method" % t2),
-                   ("wrong_arg_type", mut(12, "kk%d = K%d(%s)" % (n, n, w)), (12, 12), "constructor arg int <- %s" % t2),
-                   ("arg_count_less", mut(12, "kk%d = K%d()" % (n, n)), (12, 12), "constructor 1 -> 0"),
-                   ("wrong_arg_type", mut(13, "kk%d.bump(%s)" % (n, w)), (13, 13), "method arg int <- %s" % t2),
-                   ("unknown_method", mut(13, "kk%d.nomethod(%s)" % (n, self.e("int"))), (13, 13), ""),
-                   ("wrong_init", mut(14, "kv%d: str = kk%d.fetch()" % (n, n)), (14, 14), "str <- method result int")])
+                  [dmut("wrong_reassign", 3, "    self.x = %s" % w, "field int <- %s in constructor" % t2),
+                   dmut("wrong_return", 6, "    return %s" % w, "method int <- %s" % t2),
+                   dmut("unknown_field", 6, "    return self.nofield%d" % n, "self.nofield"),
+                   dmut("missing_return", 6, "    self.x = self.x + 0", "method declared -> int reaches its end without a return"),
+                   dmut("wrong_reassign", 9, "    self.x = %s" % w, "field int <- %s in method" % t2),
+                   # a method is reached through `self`: its bare name is not a variable of the class body
+                   dmut("unknown_name", 9, "    self.x = fetch() + d", "another method called by its bare name"),
+                   dmut("unknown_name", 6, "    return bump", "another method named without self"),
+                   ("wrong_arg_type", mut(0, "kk%d = K%d(%s)" % (n, n, w)), (0, 0), "constructor arg int <- %s" % t2),
+                   ("arg_count_less", mut(0, "kk%d = K%d()" % (n, n)), (0, 0), "constructor 1 -> 0"),
+                   ("wrong_arg_type", mut(1, "kk%d.bump(%s)" % (n, w)), (1, 1), "method arg int <- %s" % t2),
+                   ("unknown_method", mut(1, "kk%d.nomethod(%s)" % (n, self.e("int"))), (1, 1), ""),
+                   ("wrong_init", mut(2, "kv%d: str = kk%d.fetch()" % (n, n)), (2, 2), "str <- method result int")], decl=decl)
+
+    def t_self_sig(self):
+        """`Self` in a member's signature (also nested: `[Self...]`, `Self?`) is the class the member belongs to, also when
+        the member is used inside ANOTHER class, declared before or after it"""
+        n = self.uid()
+        ca = ["class SA%d {" % n, "  v: int", "  constructor(self, v: int) {", "    self.v = v", "  }",
+              "  fn all(self) -> [Self...] {", "    r: [Self...] = [self]", "    return r", "  }",
+              "  fn maybe(self) -> Self? {", "    return self", "  }", "}"]
+        first = self.r.random() < 0.5           # the user class after or before the class it uses
+        # (a class declared later cannot be named in a parameter, but a module variable can have its type: the user class
+        #  then finds the object in that list)
+        take = ["  fn first(self, a: SA%d) -> int {" % n] if first else ["  fn first(self) -> int {", "    a = sh%d[0]" % n]
+        take2 = ["  fn other(self, a: SA%d) -> int {" % n] if first else ["  fn other(self) -> int {", "    a = sh%d[0]" % n]
+        cb = ["class SB%d {" % n, "  v: int", "  w: int", "  constructor(self) {", "    self.v = 7", "    self.w = 2", "  }"] + \
+            take + ["    l = a.all()", "    x = l[0]", "    return x.v", "  }"] + take2 + ["    g = get a.maybe()", "    return g.v", "  }", "}"]
+        decl = (ca + cb) if first else (["sh%d: [SA%d...] = []" % (n, n)] + cb + ca)
+        off = len(ca) if first else 1
+        i_first, i_other = cb.index("    return x.v"), cb.index("    return g.v")
+        args = "sa%d" % n if first else ""
+        base = ["sa%d = SA%d(%s)" % (n, n, self.e("int")), "sb%d = SB%d()" % (n, n)] + ([] if first else ["sh%d.push(sa%d)" % (n, n)]) + \
+               ["sr%d: int = sb%d.first(%s) + sb%d.other(%s)" % (n, n, args, n, args)]
+
+        def dmut(fault, i, s, note):
+            d = list(decl)
+            d[off + i] = s
+            return (fault, base, (0, len(decl) - 1), note, d, "decl")
+        order = "declared before" if first else "declared after"
+        return St("self_in_signature", base,
+                  [dmut("unknown_field", i_first, "    return x.w", "field of the OTHER class on an element of `-> [Self...]` (%s)" % order),
+                   dmut("unknown_field", i_other, "    return g.w", "field of the OTHER class on the value of `-> Self?` (%s)" % order),
+                   dmut("wrong_init", i_first, "    q%d: str = x.v\n    return 1" % n, "str <- int field of an element of `-> [Self...]` (%s)" % order),
+                   dmut("wrong_return", i_other, "    return g", "object of the other class returned as int (%s)" % order)], decl=decl)
+
+    def t_assert(self):
+        n = self.uid()
+        w, t2 = self.wrong("bool")
+        return St("assert", ["assert %s" % self.r.choice(["gb", "true", "(gi > 0)", "fb(1)"]), "as%d = 1" % n],
+                  [("non_bool_condition", ["assert %s" % w, "as%d = 1" % n], (0, 0), "assert <- %s" % t2),
+                   ("non_bool_condition", ["assert gob", "as%d = 1" % n], (0, 0), "assert <- bool?"),
+                   ("unknown_name", ["assert nope%d" % n, "as%d = 1" % n], (0, 0), "")])
+
+    def t_unpack(self):
+        """`[a, b] = v`: v must be indexable by position; every name receives the type of its element
+        (a line that starts with `[` continues the expression of the previous line, hence the separator)"""
+        n = self.uid()
+        base = ["if gb {", "}", "[ua%d, ub%d] = gl" % (n, n), "uc%d: int = ua%d + ub%d" % (n, n, n),
+                "if gb {", "}", "[ud%d] = gsl" % n, "ue%d: str = ud%d" % (n, n)]
+
+        def mut(i, line):
+            m = list(base)
+            m[i] = line
+            return m
+        return St("unpack", base,
+                  [("index_non_indexable", mut(2, "[ua%d, ub%d] = %s" % (n, n, self.r.choice(["gi", "gb", "gf", "gp", "fi"]))), (2, 2), "unpacking a value without elements"),
+                   ("index_non_indexable", mut(6, "[ud%d] = %s" % (n, self.r.choice(["gi", "gb", "gp"]))), (6, 6), "single-name unpacking of a value without elements"),
+                   ("unknown_name", mut(2, "[ua%d, ub%d] = nolist%d" % (n, n, n)), (2, 2), ""),
+                   ("wrong_init", mut(3, "uc%d: str = ua%d" % (n, n)), (3, 3), "str <- unpacked int"),
+                   ("wrong_init", mut(7, "ue%d: [str...] = ud%d" % (n, n)), (7, 7), "[str...] <- the single unpacked element (a str)"),
+                   ("wrong_reassign", mut(7, "ud%d = gsl" % n), (7, 7), "single unpacked name (a str) <- the whole list")])
+
+    def t_unwrap_into(self):
+        """`a ?= b` stores into the VARIABLE a: the left side must be a name"""
+        n = self.uid()
+        base = ["uo%d: int? = nil" % n, "ur%d = uo%d ?= goi" % (n, n), "ui%d = 5" % n, "us%d = ui%d ?= 7" % (n, n), "ut%d = true" % n, "uu%d = ut%d ?= false" % (n, n)]
+
+        def mut(i, line):
+            m = list(base)
+            m[i] = line
+            return m
+        return St("unwrap_into", base,
+                  [("unsupported_operator", mut(3, "us%d = -ui%d ?= 7" % (n, n)), (3, 3), "?= with a negated name on the left"),
+                   ("unsupported_operator", mut(5, "uu%d = !ut%d ?= false" % (n, n)), (5, 5), "?= with a `not` expression on the left"),
+                   ("unsupported_operator", mut(3, "us%d = (ui%d) ?= 7" % (n, n)), (3, 3), "?= with a parenthesised name on the left"),
+                   ("unsupported_operator", mut(3, "us%d = (ui%d + 1) ?= 7" % (n, n)), (3, 3), "?= with an expression on the left"),
+                   ("unsupported_operator", mut(1, "ur%d = uo%d ?= gs" % (n, n)), (1, 1), "int? ?= str"),
+                   ("unknown_name", mut(1, "ur%d = nope%d ?= goi" % (n, n)), (1, 1), "")])
+
+    def t_declaration_shape(self):
+        """(beyond the property's fault catalogue, same demand: the diagnostic names the SOURCE file) ill-formed
+        declarations and literals that are diagnosed by the same code paths as the type faults"""
+        n = self.uid()
+        decl = ["class Q%d {" % n, "  x: int", "  constructor(self) {", "    self.x = 1", "  }", "}"]
+        base = ["qq%d = Q%d()" % (n, n), "qb%d = gi + 0b11" % n]
+        d2 = list(decl)
+        d2[5:5] = ["  constructor(self, y: int) {", "    self.x = y", "  }"]
+        d3 = list(decl)
+        d3[1] = "  x"
+        return St("declaration_shape", base,
+                  [("malformed_declaration", base, (0, len(d2) - 1), "two constructors", d2, "decl"),
+                   ("malformed_declaration", base, (0, len(d3) - 1), "member variable without a type", d3, "decl"),
+                   ("malformed_declaration", [base[0], "qb%d = gi + 0b111111111" % n], (1, 1), "byte literal wider than 8 bits inside an expression")], decl=decl)
 
     def t_opassign_fit(self):
         """`x op= y` must yield a value that still fits x: one mutant per operator and target kind"""
@@ -494,7 +622,8 @@ class G:
 
     TEMPLATES = ["t_decl_annot", "t_decl_alias", "t_decl_optional", "t_reassign", "t_call1", "t_call2", "t_mcall", "t_field",
                  "t_fn_ret", "t_fn_void", "t_cond_if", "t_cond_while", "t_cond_elseif", "t_index_list", "t_index_map", "t_binop",
-                 "t_unary", "t_map_value", "t_list_elem", "t_class_def", "t_opassign_fit", "t_fn_ret_shapes", "t_fixed_list", "t_obj_field", "t_index_write", "t_fn_typed"]
+                 "t_unary", "t_map_value", "t_list_elem", "t_class_def", "t_opassign_fit", "t_fn_ret_shapes", "t_fixed_list", "t_obj_field", "t_index_write", "t_fn_typed",
+                 "t_self_sig", "t_assert", "t_unpack", "t_unwrap_into", "t_declaration_shape"]
     CONTEXTS = ["top", "function", "closure", "method", "constructor", "if", "else_if", "else", "while", "from"]
 
     # ---------------------------------------------------------------- contexts
@@ -508,10 +637,10 @@ class G:
             return [Ctx(kind, ["k%d = fn() {" % n, "  loc%d = 3" % n, "  in%d = fn() {" % n, "    cap%d = loc%d + 1" % (n, n)],
                         children, ["  }", "  in%d()" % n, "}", "k%d()" % n], )]
         if kind == "method":
-            return [Ctx(kind, ["class C%d {" % n, "  constructor(self) {", "  }", "  fn run(self) {"], children,
-                        ["  }", "}", "c%d = C%d()" % (n, n), "c%d.run()" % n])]
+            return [Ctx(kind, [], children, ["c%d = C%d()" % (n, n), "c%d.run()" % n],
+                        hoist=(["class C%d {" % n, "  constructor(self) {", "  }", "  fn run(self) {"], ["  }", "}"]))]
         if kind == "constructor":
-            return [Ctx(kind, ["class C%d {" % n, "  constructor(self) {"], children, ["  }", "}", "c%d = C%d()" % (n, n)])]
+            return [Ctx(kind, [], children, ["c%d = C%d()" % (n, n)], hoist=(["class C%d {" % n, "  constructor(self) {"], ["  }", "}"]))]
         if kind == "if":
             return [Ctx(kind, ["if gb {"], children, ["}"])]
         if kind == "else_if":
@@ -545,35 +674,52 @@ class G:
 # ------------------------------------------------------------------ rendering
 
 def render(items, mutate=None, prefix=PREAMBLE, with_lib=False):
-    """-> (text, spans{id(St): (first_line, last_line)}, mutated statement span or None)"""
-    lines = prefix.rstrip("\n").split("\n")
+    """-> (text, (first, last) line of the mutated region or None, context path of the mutated statement)
+    layout: preamble, then every class the program declares (module level: template classes and the classes that hold the
+    method / constructor contexts, inner ones first), then the statements in their contexts"""
+    head = prefix.rstrip("\n").split("\n")
     if with_lib:
-        lines.insert(1, "import lib")
-    info = {"span": None, "path": []}
+        head.insert(1, "import lib")
+    top, body = [], []          # [(line, inside the mutated region?)]
+    info = {"path": []}
 
-    def go(its, ind, path):
+    def go(its, ind, path, out):
         for it in its:
             if isinstance(it, St):
-                use = it.lines
-                rel = None
+                use, decl, rel, where = it.lines, it.decl, None, "use"
                 if mutate is not None and mutate[0] is it:
-                    use = mutate[1][1]
-                    rel = mutate[1][2]
-                start = len(lines) + 1
-                for l in use:
-                    lines.append("  " * ind + l)
-                if rel is not None:
-                    info["span"] = (start + rel[0], start + rel[1])
+                    m = mutate[1]
+                    use, rel = m[1], m[2]
+                    if len(m) > 4:
+                        decl, where = m[4], m[5]
                     info["path"] = list(path)
+                k = 0
+                for l in decl:
+                    for l1 in l.split("\n"):
+                        top.append((l1, rel is not None and where == "decl" and rel[0] <= k <= rel[1]))
+                    k += 1
+                k = 0
+                for l in use:
+                    for l1 in l.split("\n"):
+                        out.append(("  " * ind + l1, rel is not None and where == "use" and rel[0] <= k <= rel[1]))
+                    k += 1
+            elif it.hoist:
+                blk = [(l, False) for l in it.hoist[0]]
+                go(it.children, 2, path + [it.kind], blk)           # classes declared inside land in `top` before this one
+                blk += [(l, False) for l in it.hoist[1]]
+                top.extend(blk)
+                for l in it.tail:
+                    out.append(("  " * ind + l, False))
             else:
                 for l in it.head:
-                    lines.append("  " * ind + l)
-                go(it.children, ind + {"closure": 2, "method": 2, "constructor": 2}.get(it.kind, 1), path + [it.kind])
+                    out.append(("  " * ind + l, False))
+                go(it.children, ind + {"closure": 2}.get(it.kind, 1), path + [it.kind], out)
                 for l in it.tail:
-                    lines.append("  " * ind + l)
-    go(items, 0, [])
-    lines.append('print "END"')
-    return "\n".join(lines) + "\n", info["span"], info["path"]
+                    out.append(("  " * ind + l, False))
+    go(items, 0, [], body)
+    every = [(l, False) for l in head] + top + body + [('print "END"', False)]
+    marked = [i + 1 for i, (_, f) in enumerate(every) if f]
+    return "\n".join(l for l, _ in every) + "\n", ((marked[0], marked[-1]) if marked else None), info["path"]
 
 
 def all_sites(items, path=()):
@@ -600,6 +746,10 @@ def judge(rc, out, err, span, fname="main.ms"):
     """None when the mutant is handled as the property demands, else (class-suffix, explanation)"""
     lines = out.splitlines()
     ran = any(l.strip() in ("MARK", "END") for l in lines)
+    if (rc == 101 or "panicked at" in err) and ran:
+        # the program was accepted and started: the panic is the interpreter's, while executing the ill-typed statement
+        m = re.search(r"panicked at ([^\n]*)", err)
+        return "executed", "ill-typed mutant accepted and executed until the interpreter panicked: %s" % (m.group(1)[:160] if m else err[-200:])
     if rc == 101 or "panicked at" in err:
         m = re.search(r"panicked at ([^\n]*)", err)
         return "panic", "compiler panic: %s" % (m.group(1)[:160] if m else err[-200:])
